@@ -164,7 +164,13 @@ theorem asym_total (C : Crypto) (laws : CryptoLaws C) (ch : Chan) (hwf : ch.wf) 
 theorem sym_total (C : Crypto) (laws : CryptoLaws C) (ch : Chan) (src : Bytes) :
     (recvSym Fixes.current C ch src 16).returns := by
   unfold recvSym
-  simp only [Fixes.current, true_and]
+  generalize hF : Fixes.current = F
+  have f1 : F.symShort = true := by subst hF; rfl
+  have f2 : F.keys = true := by subst hF; rfl
+  have f3 : F.aesBlock = true := by subst hF; rfl
+  have f4 : F.symPadding = true := by subst hF; rfl
+  have f5 : F.padding = true := by subst hF; rfl
+  simp only [f1, f2, f3, f4, true_and, if_true]
   split
   · split
     · simp [Outcome.returns]
@@ -184,7 +190,26 @@ theorem sym_total (C : Crypto) (laws : CryptoLaws C) (ch : Chan) (src : Bytes) :
               have := laws.aesLen _ _ hpt
               simp only [List.length_drop] at this
               rw [if_neg (by omega), if_neg (by omega)]
-              split <;> simp [Outcome.returns]
+              split
+              · have hp := verifyPadding_total F f5
+                  (src.take 16 ++ pt ++ List.replicate (src.length - (16 + pt.length)) 0) ch.policy.symSig
+                  (16 + pt.length - ch.policy.symSig)
+                split
+                · rename_i o ho
+                  cases o with
+                  | ok d => simp [Outcome.returns]
+                  | err s => simp [Outcome.returns]
+                  | panic s => exact absurd ho (hp s).1
+                  | fuel => exact absurd ho (hp .nullCert).2
+                · simp [Outcome.returns]
+              · simp [Outcome.returns]
   · simp [Outcome.returns]
+
+/-- an early outcome of `verify_padding` is never a chunk -/
+theorem verifyPadding_inl_not_ok (F : Fixes) (dst : Bytes) (keySize padEnd : Nat) (d : Bytes) :
+    verifyPadding F dst keySize padEnd ≠ .inl (.ok d) := by
+  unfold verifyPadding
+  cases F.padding <;> simp only [Bool.false_eq_true, false_and, true_and, if_false] <;>
+    (repeat' split) <;> simp
 
 end OpcuaVerif.C09
